@@ -101,10 +101,23 @@ def sets_as_data(ctx):
 def run(ctx):
     ctx.mc("MC_KmerFilter", "MC_KmerFilter_quick.cfg" if ctx.quick else "MC_KmerFilter_fixed.cfg", workers=12,
            timeout=3000)
-    data_ev = sets_as_data(ctx)
-    ev = G.small_scope(ctx.rng, 6000 if ctx.quick else 150000, ["C07"]) + \
-        G.random_events(ctx.rng, 14000 if ctx.quick else 300000, ["C07"]) + \
-        G.targeted_events(ctx.rng, 12000 if ctx.quick else 300000, ["C07"]) + data_ev
+    try:
+        data_ev = sets_as_data(ctx)
+    except (AttributeError, TypeError, ValueError, KeyError) as ex:
+        # the search sets are read from private attributes; a tree that stores them differently loses this
+        # extra exploration, not the check
+        data_ev = []
+        ctx.extra["sets_as_data"] = f"not available in this tree ({ex!r})"
+    want = ["C07"]
+    if not G.bypass_effective():
+        # the differential clause needs a way to switch the prefilter off; without it the declarative
+        # clauses (an admissible occurrence must be found) are applied to the prefiltered result instead
+        want = ["C07", "C02"]
+        ctx.extra["prefilter_bypass"] = "adapter.kmer_finder is not consulted by match_to in this tree: differential clause vacuous, C02.FoundIf* clauses applied to the prefiltered result instead"
+        ctx.assumptions.append("prefilter could not be switched off (see coverage.prefilter_bypass)")
+    ev = G.small_scope(ctx.rng, 6000 if ctx.quick else 150000, want) + \
+        G.random_events(ctx.rng, 14000 if ctx.quick else 300000, want) + \
+        G.targeted_events(ctx.rng, 12000 if ctx.quick else 300000, want) + data_ev
     for i, e in enumerate(ev):
         e["id"] = i
     judge(ctx, ev)
